@@ -19,7 +19,9 @@ MAX_EXHAUSTIVE_VARS = 18
 N_SAMPLES = 2000
 RULE = ("Instances = CNFs produced by the real pipeline from pbt.gen.programs.programs() (default shape and "
         "max_preds=3/2 for frequent recursion), with and without propagate_evidence: LogicFormula -> LogicDAG -> CNF, "
-        "including trivial CNFs (no clause) and CNFs whose query/evidence literals occur in no clause; each is compiled "
+        "including trivial CNFs (no clause) and CNFs whose query/evidence literals occur in no clause; a second generator "
+        "('absent_literals': propositional programs over three probabilistic atoms / AD heads and up to three derived "
+        "conjunctions of signed atoms) makes labels on literals that are constant in every model frequent; each CNF is compiled "
         "with DDNNF.create_from(cnf). Oracle on the returned DDNNF object: every AND node has children with pairwise "
         "disjoint variable sets; every OR node has children with pairwise disjoint truth tables and equal variable "
         "sets; negation only on atoms; the root (node len(nnf), the node the evaluator reads) has the truth table of "
@@ -347,6 +349,43 @@ def check(case):
                    extra={"disagreements_checked": n_cmp})
 
 
+@st.composite
+def contradiction_programs(draw):
+    """Propositional programs over three probabilistic atoms (independent or heads of one annotated disjunction)
+    and up to three derived atoms defined by conjunctions of signed earlier atoms.  Many derived atoms are
+    constant in every model of the CNF without being syntactically constant (a, b exclusive heads; d1 :- a, b;
+    d2 :- d1, \\+a ...), so that literals of query/evidence atoms are absent from the compiled circuit."""
+    probs = ["0.1", "0.2", "0.3", "0.4", "0.5"]
+    prog = []
+    shape = draw(st.integers(0, 2))
+    if shape == 0:
+        for f in "abc":
+            prog.append(["pfact", draw(st.sampled_from(probs)), [f, []]])
+    elif shape == 1:
+        prog.append(["ad", [[draw(st.sampled_from(probs[:3])), ["a", []]], [draw(st.sampled_from(probs[:3])), ["b", []]]], []])
+        prog.append(["pfact", draw(st.sampled_from(probs)), ["c", []]])
+    else:
+        prog.append(["ad", [[draw(st.sampled_from(probs[:3])), [f, []]] for f in "abc"], []])
+    names = ["a", "b", "c"]
+    for d in ("d1", "d2", "d3")[:draw(st.integers(1, 3))]:
+        for _ in range(draw(st.integers(1, 2))):
+            body = []
+            for _ in range(draw(st.integers(2, 3))):
+                body.append([draw(st.integers(0, 2)) == 0, draw(st.sampled_from(names)), []])
+            prog.append(["rule", [d, []], body])
+        names.append(d)
+    for _ in range(draw(st.integers(1, 3))):
+        prog.append(["query", [draw(st.sampled_from(names)), []], draw(st.booleans())])
+    for _ in range(draw(st.sampled_from([0, 0, 1]))):
+        prog.append(["evidence", [draw(st.sampled_from(names)), []], draw(st.booleans()), draw(st.integers(0, 1))])
+    return prog
+
+
+def _strategy_small():
+    return st.tuples(st.booleans(), contradiction_programs()).map(
+        lambda t: {"prog": t[1], "propagate": t[0], "seed": 0})
+
+
 def _strategy():
     progs = st.one_of(gp.programs(), gp.programs(), gp.programs(max_preds=3), gp.programs(max_preds=2, max_clauses=4))
     return st.tuples(st.booleans(), st.integers(0, 2 ** 31 - 1), progs).map(
@@ -360,6 +399,8 @@ def render(case):
 KNOWN_CLASSES = {}
 
 SUBCHECKS = [
-    SubCheck("compile", check, strategy=_strategy, budget={"quick": 1600, "thorough": 40000},
+    SubCheck("compile", check, strategy=_strategy, budget={"quick": 1000, "thorough": 40000},
+             timeout={"quick": 15, "thorough": 40}, render=render),
+    SubCheck("absent_literals", check, strategy=_strategy_small, budget={"quick": 300, "thorough": 8000},
              timeout={"quick": 15, "thorough": 40}, render=render),
 ]
